@@ -43,7 +43,14 @@ pub fn n_runs(m: Mode, tier: &str) -> u64 {
 pub fn gen(m: Mode, tier: &str, seed: u64, idx: u64, base: u64) -> Spec {
     let _ = tier;
     let mut rng = Rng::new(seed);
-    let world = if rng.coin(if m == Mode::C28 { 30 } else { 12 }) { wgen::gen_zoo(&mut rng) } else { pick_world(&mut rng, base, idx, 55, wgen::Profile::Any) };
+    let world = if rng.coin(if m == Mode::C28 { 30 } else { 12 }) {
+        wgen::gen_zoo(&mut rng)
+    } else if m == Mode::C04 && rng.coin(8) {
+        // mixed inductive/coinductive cycles: outside every reference fragment, but C04 needs no reference
+        wgen::gen_world(&mut rng, wgen::Profile::CycMixed)
+    } else {
+        pick_world(&mut rng, base, idx, 55, wgen::Profile::Any)
+    };
     let goals = usable_goals(&world, &["slg", "rec"]);
     let slots = vec![SlotCfg::slg(), SlotCfg::rec()];
     let mut db = DbCfg::default();
@@ -260,6 +267,9 @@ pub fn exec(m: Mode, spec: &Spec, r: &mut RunResult) {
                                 if crate::ssim::nonlinear_impl_header(&spec.world.items.join("\n")) {
                                     sig.push_str("+nonlinear");
                                 }
+                                if crate::ssim::mixed_cycle_world(&spec.world) {
+                                    sig.push_str("+mixed-cycle");
+                                }
                                 r.violate(
                                     "solvers-contradict",
                                     format!("goal `{}` (after op #{}): SLG answers `{}`, recursive solver answers `{}`: {}", spec.world.goals[op.goal], oi, fmt_sol(&a), fmt_sol(&b), why),
@@ -301,6 +311,9 @@ pub fn exec(m: Mode, spec: &Spec, r: &mut RunResult) {
                         }
                         if crate::ssim::nonlinear_impl_header(&spec.world.items.join("\n")) {
                             sig.push_str("+nonlinear");
+                        }
+                        if crate::ssim::mixed_cycle_world(&spec.world) {
+                            sig.push_str("+mixed-cycle");
                         }
                         r.violate("solvers-contradict", format!("goal `{}` (fresh solvers): SLG answers `{}`, recursive solver answers `{}`: {}", spec.world.goals[gi], fmt_sol(a), fmt_sol(b), why), Some(&sig));
                     }
